@@ -506,11 +506,12 @@ void do_release(int o, bool null_out)
         else if (b.users != (1u << o) || b.ghosts) CNT("class.release_shared");
         else { CNT("class.release_sole"); hand_over = true; want = (void *)b.base; }
     }
+    std::string before = g_trace ? vs(o) : std::string();
     op_begin();
     if (hand_over) drop_ref(o);
     void *out = (void *)&S;          // something that is neither NULL nor a buffer
     if (null_out) LIB(cstl_array_release(a, nullptr)); else LIB(cstl_array_release(a, &out));
-    TRACE("%s.release(%s) on %s -> %s", on(o), null_out ? "NULL" : "&buf", vs(o).c_str(),
+    TRACE("%s.release(%s) on %s -> %s", on(o), null_out ? "NULL" : "&buf", before.c_str(),
           null_out ? "-" : out == nullptr ? "NULL" : out == want ? "the external buffer" : "?");
     if (!null_out) {
         if (hand_over) CK(out == want, "release.sole", "release by the sole user returned %p, the external buffer is %p", out, want);
